@@ -84,15 +84,24 @@ PruneOK(s, used, now, desired, ret, s2) ==
                 /\ Cardinality(live \ { e \in ev : e.name # last }) > desired
 
 -----------------------------------------------------------------------------
-\* bookkeeping of the last-use interval
-UsedAfterInsert(used, s2, now, name) ==
-    [n \in Names(s2) |-> IF n = name THEN [lo |-> now, hi |-> now] ELSE used[n]]
+\* bookkeeping of the last-use interval; `held` = the record types the name has held since it entered the cache
+\* (the code keeps a - possibly empty - slot per type for as long as the name is cached)
+UsedAfterInsert(used, s2, now, name, type) ==
+    [n \in Names(s2) |->
+        IF n = name THEN [lo |-> now, hi |-> now,
+                          held |-> (IF name \in DOMAIN used THEN used[name].held ELSE {}) \cup {type}]
+        ELSE used[n]]
 
-UsedAfterGet(used, s, s2, now, name, ret) ==
+\* A lookup that returns records is a use of the name.  A lookup that returns nothing although the name holds or has
+\* held a record of a matching type (expired, withheld in its last sub-second, or removed by a prune while the name
+\* stayed) may or may not count: the code touches the name, a stricter cache need not.  A lookup for a type the name
+\* has NEVER held since it entered the cache is not a use: its place in the eviction order stays as it was.
+UsedAfterGet(used, s, s2, now, name, qtype, ret) ==
     [n \in Names(s2) |->
         IF n # name THEN used[n]
-        ELSE IF ret # <<>> THEN [lo |-> now, hi |-> now]
-        ELSE [lo |-> used[n].lo, hi |-> now]]
+        ELSE IF ret # <<>> THEN [used[n] EXCEPT !.lo = now, !.hi = now]
+        ELSE IF \A t \in used[n].held : ~QMatches(t, qtype) THEN used[n]
+        ELSE [used[n] EXCEPT !.hi = now]]
 
 UsedRestrict(used, s2) == [n \in Names(s2) |-> used[n]]
 
